@@ -129,6 +129,32 @@ fn main() {
         }
         c.add_sweep("config-window-bounds: every access type at every aligned offset up to 8 bytes past configuration windows of 0..24 bytes on MMIO (legacy, modern) and PCI", ev, cases, true, J::obj());
     }
+    // Part F: configuration spaces that are shorter than the driver expects (any length below the
+    // full size, on every transport): construction fails with an error, and no DMA region is
+    // released while the device is still live on a queue in it or released twice.
+    {
+        let mut ev = 0u64;
+        let mut classes = std::collections::HashSet::new();
+        for kind in vlab::drivers::ALL_KINDS {
+            for tk in vlab::drivers::ALL_TKINDS {
+                let full = kind.default_config().len();
+                let mut seen = std::collections::HashSet::new();
+                for l in 0..full {
+                    let mut cs = vlab::c09::base_case(kind, tk);
+                    cs.config_len = Some(l);
+                    let o = vlab::c09::run_case(&cs);
+                    ev += 1;
+                    classes.insert(format!("{}:{}:{}", kind.name(), tk.name(), o.class));
+                    for (k, d) in o.viols {
+                        if seen.insert(k.clone()) {
+                            c.add_violation(Violation::new("C07", format!("short-config:{}", k), format!("{} driver on {}, configuration space of {} of {} bytes: {}", kind.name(), tk.name(), l, full, d)), "short-config-construction", J::obj().set("kind", J::s("case")).set("case", J::s(format!("{:?}", cs))), vec![]);
+                        }
+                    }
+                }
+            }
+        }
+        c.add_sweep("short-config-construction: every driver on every transport with the configuration space truncated to every length below its full size", ev, classes.len() as u64, true, J::obj());
+    }
     vlab::tracer::install_handlers();
     vlab::crash::install();
     for (name, p) in parts(args.tier) {
